@@ -7,6 +7,7 @@ from ..probe import call
 from ..ref import cpr
 
 LEVEL = "exploration"
+BRANCH_TARGETS = ['pyModeS.py_common:cprNL']
 TECHNIQUE = 'runtime monitoring: NL table from closed-form transition latitudes as oracle + trace monitors (evenness, monotonicity) over recorded calls'
 LEVEL_TEXT = 'Exploration with an exhaustive 0.0005-degree grid (0.0001 in thorough) and +-1..64 ulps / +-1e-12..1e-3 around all 58 transitions; the remaining reals between grid points are not observed.'
 LEVEL_RULE = (
